@@ -1,15 +1,844 @@
-// gofacts: structural facts about /repo's current source, emitted as Lean data (Gen/Facts.lean).
-// (stub: replaced by the full extractor; emits an empty fact base)
+// gofacts: structural facts about the repository's current source, emitted as Lean data
+// (lean/GdcVerif/Gen/Facts.lean).  Type-resolved with go/types over the files of the default
+// build (see load.go); the store analysis is in alias.go, the per-field analysis in fields.go.
+//
+//	F1  pkgVars, pkgVarWrites      package-level variables and every store rooted in one
+//	F2  codecTypes, codecRecvStores stores through the receiver of methods of codec.Codec implementations
+//	F3  <obj>Fields/-Readers/-Writers/-Class for jpeg2000.Encoder (Encode) and jpeg2000.Decoder (Decode)
+//	F4  inputParams, inputParamStores stores through the caller's input buffers
+//	F5  goStmts, syncUses, unsafeImports
+//	    validate*                   store path conditions of the Parameters.Validate methods
+//	    unknowns                    everything the analysis could not classify (obligations fail on these)
+//	-hooks DIR  additionally writes add-only `verif_pkgvars.go` hook files (//go:build verif) that
+//	            expose pointers to the package-level variables for the dynamic snapshot of C18.
 package main
 
 import (
 	"flag"
+	"fmt"
+	"go/ast"
+	"go/token"
+	"go/types"
 	"os"
+	"path/filepath"
+	"sort"
+	"strconv"
+	"strings"
 )
 
+func q(s string) string { return strconv.Quote(s) }
+
+func leanList(items []string, perLine bool) string {
+	if len(items) == 0 {
+		return "[]"
+	}
+	if perLine {
+		return "[\n  " + strings.Join(items, ",\n  ") + "]"
+	}
+	return "[" + strings.Join(items, ", ") + "]"
+}
+
+func qlist(xs []string) string {
+	ys := make([]string, len(xs))
+	for i, x := range xs {
+		ys[i] = q(x)
+	}
+	return leanList(ys, false)
+}
+
+func uniqSorted(xs []string) []string {
+	sort.Strings(xs)
+	var out []string
+	for i, x := range xs {
+		if i == 0 || x != xs[i-1] {
+			out = append(out, x)
+		}
+	}
+	return out
+}
+
 func main() {
-	_ = flag.String("repo", "/repo", "repository root")
-	out := flag.String("out", "", "output file")
+	repo := flag.String("repo", "/repo", "repository root")
+	out := flag.String("out", "", "output file (Facts.lean)")
+	hooks := flag.String("hooks", "", "directory to write verif_pkgvars.go hook files into (mirrors the repo layout)")
+	verbose := flag.Bool("v", false, "print a summary")
 	flag.Parse()
-	_ = os.WriteFile(*out, []byte("-- GENERATED by verif/go/cmd/gofacts — do not edit\nnamespace Gen.Facts\nend Gen.Facts\n"), 0o644)
+	absRepo, _ := filepath.Abs(*repo)
+	prog, err := load(absRepo)
+	if err != nil {
+		fmt.Fprintln(os.Stderr, "gofacts:", err)
+		os.Exit(1)
+	}
+	an := newAnalysis(prog)
+	an.run()
+	text := emit(an, *verbose)
+	if *out != "" {
+		if err := os.WriteFile(*out, []byte(text), 0o644); err != nil {
+			fmt.Fprintln(os.Stderr, "gofacts:", err)
+			os.Exit(1)
+		}
+	} else {
+		fmt.Print(text)
+	}
+	if *hooks != "" {
+		if err := writeHooks(an, *hooks); err != nil {
+			fmt.Fprintln(os.Stderr, "gofacts:", err)
+			os.Exit(1)
+		}
+	}
+}
+
+// ---------------------------------------------------------------- phases (init reachability)
+
+func (an *analysis) phases() map[*funcInfo]string {
+	closure := func(roots []*funcInfo) map[*funcInfo]bool {
+		seen := map[*funcInfo]bool{}
+		work := append([]*funcInfo(nil), roots...)
+		for _, r := range roots {
+			seen[r] = true
+		}
+		for len(work) > 0 {
+			f := work[len(work)-1]
+			work = work[:len(work)-1]
+			for _, m := range []map[*funcInfo]bool{f.callees, f.funcRefs} {
+				for c := range m {
+					if !seen[c] {
+						seen[c] = true
+						work = append(work, c)
+					}
+				}
+			}
+		}
+		return seen
+	}
+	// exported functions that init calls and that no other function of the module calls: they run during
+	// initialisation; a client calling them later is outside the property (reported with phase "init-exported")
+	calledByNonInit := map[*funcInfo]bool{}
+	calledByInit := map[*funcInfo]bool{}
+	for _, fi := range an.flist {
+		for c := range fi.callees {
+			if c == fi {
+				continue
+			}
+			if fi.isInit {
+				calledByInit[c] = true
+			} else {
+				calledByNonInit[c] = true
+			}
+		}
+		for c := range fi.funcRefs {
+			if !fi.callees[c] {
+				calledByNonInit[c] = true
+			}
+		}
+	}
+	initHelper := map[*funcInfo]bool{}
+	for _, fi := range an.flist {
+		if fi.decl != nil && !fi.hasRecv && ast.IsExported(fi.decl.Name.Name) && calledByInit[fi] && !calledByNonInit[fi] {
+			initHelper[fi] = true
+		}
+	}
+	// helpers of helpers: exported, called only by init helpers
+	for ch := true; ch; {
+		ch = false
+		for _, fi := range an.flist {
+			if initHelper[fi] || fi.decl == nil || fi.hasRecv || !ast.IsExported(fi.decl.Name.Name) {
+				continue
+			}
+			only, some := true, false
+			for _, g := range an.flist {
+				if g != fi && g.callees[fi] {
+					some = true
+					if !g.isInit && !initHelper[g] {
+						only = false
+					}
+				}
+				if g != fi && g.funcRefs[fi] && !g.callees[fi] {
+					only = false
+				}
+			}
+			if some && only {
+				initHelper[fi] = true
+				ch = true
+			}
+		}
+	}
+	var initRoots, rtRoots []*funcInfo
+	for _, fi := range an.flist {
+		if fi.isInit {
+			initRoots = append(initRoots, fi)
+			// function values created during initialisation may be invoked at any later time
+			for r := range fi.funcRefs {
+				if !fi.callees[r] {
+					rtRoots = append(rtRoots, r)
+				}
+			}
+			continue
+		}
+		if fi.decl != nil && !initHelper[fi] && (ast.IsExported(fi.decl.Name.Name) || (fi.decl.Name.Name == "main" && !fi.hasRecv)) {
+			rtRoots = append(rtRoots, fi)
+		}
+	}
+	// func values taken anywhere at run time
+	rt := closure(rtRoots)
+	ini := closure(initRoots)
+	out := map[*funcInfo]string{}
+	for _, fi := range an.flist {
+		switch {
+		case fi.isInit:
+			out[fi] = "init"
+		case rt[fi]:
+			out[fi] = "runtime"
+		case initHelper[fi]:
+			out[fi] = "init-exported"
+		case ini[fi]:
+			out[fi] = "init-only"
+		default:
+			out[fi] = "dead"
+		}
+	}
+	return out
+}
+
+// ---------------------------------------------------------------- emission
+
+func emit(an *analysis, verbose bool) string {
+	prog := an.prog
+	var b strings.Builder
+	w := func(f string, a ...any) { fmt.Fprintf(&b, f, a...) }
+	w("-- GENERATED by verif/go/cmd/gofacts from the repository's current source — do not edit\n")
+	w("namespace Gen.Facts\n\n")
+	phase := an.phases()
+	isLibVar := func(pv *pkgVarInfo) bool { return pv.pkg.isLib }
+
+	// F1
+	w("/-- F1: (package, variable, type, library package?) for every package-level variable -/\n")
+	var items []string
+	for _, pv := range an.pvlist {
+		items = append(items, fmt.Sprintf("(%s, %s, %s, %v)", q(prog.rel(pv.pkg.lp.ImportPath)), q(pv.v.Name()), q(pv.typ), isLibVar(pv)))
+	}
+	w("def pkgVars : List (String × String × String × Bool) := %s\n\n", leanList(items, true))
+	w("/-- F1: (variable, function, kind, phase, library package?) for every store rooted in a package-level\n    variable; phase ∈ init | init-only | init-exported | runtime | dead -/\n")
+	items = nil
+	seen := map[string]bool{}
+	sort.SliceStable(an.stores, func(i, j int) bool {
+		a, c := an.stores[i], an.stores[j]
+		if an.pkgVars[a.root].name != an.pkgVars[c.root].name {
+			return an.pkgVars[a.root].name < an.pkgVars[c.root].name
+		}
+		if a.fn.name != c.fn.name {
+			return a.fn.name < c.fn.name
+		}
+		return a.kind < c.kind
+	})
+	nRuntime := 0
+	for _, s := range an.stores {
+		pv := an.pkgVars[s.root]
+		it := fmt.Sprintf("(%s, %s, %s, %s, %v)", q(pv.name), q(s.fn.name), q(s.kind), q(phase[s.fn]), pv.pkg.isLib || s.fn.pkg.isLib)
+		if !seen[it] {
+			seen[it] = true
+			items = append(items, it)
+			if phase[s.fn] == "runtime" || phase[s.fn] == "dead" {
+				nRuntime++
+			}
+		}
+	}
+	w("def pkgVarWrites : List (String × String × String × String × Bool) := %s\n\n", leanList(items, true))
+
+	// F2
+	codecIface := findCodecIface(prog)
+	var codecTypes []string
+	var f2 []string
+	unknowns := append([]unknownFact(nil), an.unknowns...)
+	if codecIface == nil {
+		unknowns = append(unknowns, unknownFact{"codec.Codec interface", "gofacts", "github.com/cocosip/go-dicom/pkg/imaging/codec.Codec not found", true})
+	}
+	isCodecRecv := func(fi *funcInfo) (string, bool) {
+		if !fi.hasRecv || codecIface == nil {
+			return "", false
+		}
+		t := fi.params[0].Type()
+		base := t
+		if p, ok := t.(*types.Pointer); ok {
+			base = p.Elem()
+		}
+		nt, ok := base.(*types.Named)
+		if !ok {
+			return "", false
+		}
+		if types.Implements(types.NewPointer(nt), codecIface) || types.Implements(nt, codecIface) {
+			return prog.rel(nt.Obj().Pkg().Path()) + "." + nt.Obj().Name(), true
+		}
+		return "", false
+	}
+	for _, fi := range an.flist {
+		tn, ok := isCodecRecv(fi)
+		if !ok {
+			continue
+		}
+		codecTypes = append(codecTypes, tn)
+		var es []string
+		for e := range fi.storesThru[0] {
+			es = append(es, e)
+		}
+		sort.Strings(es)
+		for _, e := range es {
+			f2 = append(f2, fmt.Sprintf("(%s, %s, %s)", q(tn), q(fi.decl.Name.Name), q(e)))
+		}
+		for u := range fi.unknownVia[0] {
+			unknowns = append(unknowns, unknownFact{"codec receiver " + tn, fi.name, u, true})
+		}
+	}
+	codecTypes = uniqSorted(codecTypes)
+	w("/-- F2: the types implementing go-dicom's codec.Codec -/\n")
+	w("def codecTypes : List String := %s\n\n", qlist(codecTypes))
+	var cm []string
+	for _, fi := range an.flist {
+		if tn, ok := isCodecRecv(fi); ok {
+			cm = append(cm, fmt.Sprintf("(%s, %s)", q(tn), q(fi.decl.Name.Name)))
+		}
+	}
+	w("/-- F2: every method with such a receiver (the set the obligation ranges over) -/\n")
+	w("def codecMethods : List (String × String) := %s\n\n", leanList(cm, true))
+	w("/-- F2: (type, method, cell type) for every store through the receiver of such a method (transitively) -/\n")
+	w("def codecRecvStores : List (String × String × String) := %s\n\n", leanList(f2, true))
+
+	// F3
+	for _, spec := range [][3]string{{"jpeg2000", "Encoder", "Encode"}, {"jpeg2000", "Decoder", "Decode"}} {
+		fo := an.fieldAnalysis(spec[0], spec[1], spec[2])
+		pre := strings.ToLower(spec[1])
+		if fo == nil {
+			unknowns = append(unknowns, unknownFact{spec[0] + "." + spec[1], "gofacts", "type or entry method " + spec[2] + " not found", true})
+			w("def %sFields : List (String × String) := []\ndef %sFieldReaders : List (String × List String) := []\n", pre, pre)
+			w("def %sFieldWriters : List (String × List (String × String)) := []\ndef %sFieldClass : List (String × String) := []\n", pre, pre)
+			w("def %sContentStores : List (String × String × String × String) := []\ndef %sWriterReads : List (String × List String) := []\n\n", pre, pre)
+			continue
+		}
+		w("/-- F3 %s, entry %s: (field, type) in declaration order -/\n", fo.typeName, spec[2])
+		items = nil
+		for i, f := range fo.fields {
+			items = append(items, fmt.Sprintf("(%s, %s)", q(f), q(fo.ftypes[i])))
+		}
+		w("def %sFields : List (String × String) := %s\n", pre, leanList(items, true))
+		w("/-- functions reachable from %s that read the field -/\n", spec[2])
+		items = nil
+		for _, f := range fo.fields {
+			var rs []string
+			for fi := range fo.reads[f] {
+				rs = append(rs, fi.short)
+			}
+			items = append(items, fmt.Sprintf("(%s, %s)", q(f), qlist(uniqSorted(rs))))
+		}
+		w("def %sFieldReaders : List (String × List String) := %s\n", pre, leanList(items, true))
+		w("/-- functions reachable from %s that write the field: (function, whole | partial) -/\n", spec[2])
+		items = nil
+		writersOfLeaky := map[*funcInfo]bool{}
+		for _, f := range fo.fields {
+			var ws []string
+			var fis []*funcInfo
+			for fi := range fo.writes[f] {
+				fis = append(fis, fi)
+			}
+			sort.Slice(fis, func(i, j int) bool { return fis[i].short < fis[j].short })
+			for _, fi := range fis {
+				ws = append(ws, fmt.Sprintf("(%s, %s)", q(fi.short), q(fo.writes[f][fi])))
+				if fo.class[f] == "leaky" {
+					writersOfLeaky[fi] = true
+				}
+			}
+			items = append(items, fmt.Sprintf("(%s, %s)", q(f), leanList(ws, false)))
+		}
+		w("def %sFieldWriters : List (String × List (String × String)) := %s\n", pre, leanList(items, true))
+		w("/-- config (never written from %s) | writeonly | killed (written before any read on every path) | leaky -/\n", spec[2])
+		items = nil
+		for _, f := range fo.fields {
+			items = append(items, fmt.Sprintf("(%s, %s)", q(f), q(fo.class[f])))
+		}
+		w("def %sFieldClass : List (String × String) := %s\n", pre, leanList(items, true))
+		w("/-- stores into memory referenced by a field: (field, sub-field, function, how) -/\n")
+		items = nil
+		for _, cs := range fo.contents {
+			items = append(items, fmt.Sprintf("(%s, %s, %s, %s)", q(cs.field), q(cs.sub), q(cs.fn), q(cs.kind)))
+		}
+		items = uniqSorted(items)
+		w("def %sContentStores : List (String × String × String × String) := %s\n", pre, leanList(items, true))
+		w("/-- for every function writing a leaky field: the fields it may read (transitively) -/\n")
+		items = nil
+		var wl []*funcInfo
+		for fi := range writersOfLeaky {
+			wl = append(wl, fi)
+		}
+		sort.Slice(wl, func(i, j int) bool { return wl[i].short < wl[j].short })
+		for _, fi := range wl {
+			var rs []string
+			for f := range fo.mayRead[fi] {
+				rs = append(rs, f)
+			}
+			items = append(items, fmt.Sprintf("(%s, %s)", q(fi.short), qlist(uniqSorted(rs))))
+		}
+		w("def %sWriterReads : List (String × List String) := %s\n\n", pre, leanList(items, true))
+	}
+
+	// F4
+	var ip, ips, dps []string
+	for _, fi := range an.flist {
+		if fi.decl == nil || !fi.pkg.isLib || !ast.IsExported(fi.decl.Name.Name) {
+			continue
+		}
+		n := fi.decl.Name.Name
+		if !(strings.HasPrefix(n, "Encode") || strings.HasPrefix(n, "Decode")) {
+			continue
+		}
+		seenPD := false
+		for i, p := range fi.params {
+			if fi.hasRecv && i == 0 {
+				continue
+			}
+			ts := types.TypeString(p.Type(), func(q *types.Package) string { return q.Name() })
+			isBytes := ts == "[]byte" || ts == "[]uint8"
+			isPD := ts == "imagetypes.PixelData"
+			if isPD && seenPD {
+				continue // second PixelData parameter is the destination
+			}
+			if isPD {
+				seenPD = true
+			}
+			if !isBytes && !isPD {
+				continue
+			}
+			ip = append(ip, fmt.Sprintf("(%s, %s, %s, %v)", q(fi.name), q(p.Name()), q(ts), strings.HasPrefix(n, "Encode")))
+			var es []string
+			for e := range fi.storesThru[i] {
+				es = append(es, e)
+			}
+			sort.Strings(es)
+			for _, e := range es {
+				// through a []byte, or through PixelData.GetFrame (a []byte), only byte cells are reachable
+				if e != "uint8" && e != "byte" && e != anyType {
+					continue
+				}
+				if strings.HasPrefix(n, "Encode") {
+					ips = append(ips, fmt.Sprintf("(%s, %s, %s)", q(fi.name), q(p.Name()), q(e)))
+				} else {
+					dps = append(dps, fmt.Sprintf("(%s, %s, %s)", q(fi.name), q(p.Name()), q(e)))
+				}
+			}
+			for u := range fi.unknownVia[i] {
+				unknowns = append(unknowns, unknownFact{"input parameter " + p.Name(), fi.name, u, true})
+			}
+		}
+	}
+	w("/-- F4: the caller-owned input buffers examined: exported Encode*/Decode* functions and methods of the\n    library packages, parameters of type []byte and the source imagetypes.PixelData; (function, parameter,\n    type, is an Encode* function?) -/\n")
+	w("def inputParams : List (String × String × String × Bool) := %s\n\n", leanList(ip, true))
+	w("/-- F4: (function, parameter, cell type) for every byte store through such a parameter of an Encode* function\n    (transitively).  This is the obligation: the caller's pixel data is not written. -/\n")
+	w("def inputParamStores : List (String × String × String) := %s\n\n", leanList(ips, true))
+	w("/-- F4, Decode* functions: over-approximate (aliasing is tracked per object, not per field, so a decoder's own\n    scratch-buffer stores are attributed to the input it wraps).  Informational; input immutability of Decode is\n    established dynamically by the C10 harness. -/\n")
+	w("def decodeInputStoresApprox : List (String × String × String) := %s\n\n", leanList(dps, true))
+	if verbose && os.Getenv("GOFACTS_PSTORES") != "" {
+		for _, s := range an.pstores {
+			if s.fn.pkg.isLib && (strings.Contains(s.fn.name, "ecode") || strings.Contains(s.fn.name, "ncode")) {
+				fmt.Fprintf(os.Stderr, "pstore %s param=%s kind=%s %s:%d\n", s.fn.name, s.root.Name(), s.kind, shortFile(prog, s.pos.Filename), s.pos.Line)
+			}
+		}
+	}
+
+	// F5
+	var gos, syncs, unsafes []string
+	for _, p := range prog.pkgs {
+		rel := prog.rel(p.lp.ImportPath)
+		for _, f := range p.files {
+			fname := shortFile(prog, prog.fset.Position(f.Pos()).Filename)
+			for _, im := range f.Imports {
+				path, _ := strconv.Unquote(im.Path.Value)
+				switch path {
+				case "unsafe":
+					unsafes = append(unsafes, fmt.Sprintf("(%s, %s, %v)", q(rel), q(fname), p.isLib))
+				case "sync", "sync/atomic":
+					syncs = append(syncs, fmt.Sprintf("(%s, %s, %v)", q(rel), q(fname+" imports "+path), p.isLib))
+				}
+			}
+			ast.Inspect(f, func(n ast.Node) bool {
+				if g, ok := n.(*ast.GoStmt); ok {
+					gos = append(gos, fmt.Sprintf("(%s, %s, %v)", q(rel), q(fmt.Sprintf("%s:%d", fname, prog.fset.Position(g.Pos()).Line)), p.isLib))
+				}
+				return true
+			})
+		}
+	}
+	w("/-- F5: (package, where, library package?) -/\n")
+	w("def goStmts : List (String × String × Bool) := %s\n", leanList(uniqSorted(gos), true))
+	w("def syncUses : List (String × String × Bool) := %s\n", leanList(uniqSorted(syncs), true))
+	w("def unsafeImports : List (String × String × Bool) := %s\n\n", leanList(uniqSorted(unsafes), true))
+
+	// Validate kernels
+	unknowns = append(unknowns, emitValidate(an, &b)...)
+
+	// unknowns
+	items = nil
+	for _, u := range unknowns {
+		items = append(items, fmt.Sprintf("(%s, %s, %s, %v)", q(u.what), q(u.where), q(u.detail), u.lib))
+	}
+	items = uniqSorted(items)
+	w("/-- everything the analysis could not classify: (what, where, detail, concerns a library package?).\n    Obligations require the library part of this to be empty. -/\n")
+	w("def unknowns : List (String × String × String × Bool) := %s\n\n", leanList(items, true))
+	w("end Gen.Facts\n")
+	if verbose {
+		fmt.Fprintf(os.Stderr, "gofacts: %d packages, %d functions, %d package vars, %d pkgvar stores (%d outside init), %d codec types, %d unknowns\n",
+			len(prog.pkgs), len(an.flist), len(an.pvlist), len(an.stores), nRuntime, len(codecTypes), len(items))
+	}
+	return b.String()
+}
+
+func findCodecIface(prog *program) *types.Interface {
+	for path, p := range prog.byPath {
+		if strings.HasSuffix(path, "/pkg/imaging/codec") && p.tpkg != nil {
+			if tn, ok := p.tpkg.Scope().Lookup("Codec").(*types.TypeName); ok {
+				if it, ok := tn.Type().Underlying().(*types.Interface); ok {
+					return it
+				}
+			}
+		}
+	}
+	return nil
+}
+
+// ---------------------------------------------------------------- Validate kernels
+
+type vcond struct {
+	field string
+	cond  string // Lean Bool expression over `p`
+}
+
+// emitValidate: for every method `Validate` with a pointer receiver to a struct in a library package: a Lean
+// structure of the fields the conditions mention and the list of (stored field, path condition).  The path
+// condition is evaluated on the *initial* object, which is exact for the question "is any store executed":
+// if no earlier store fired the object is still the initial one.
+func emitValidate(an *analysis, b *strings.Builder) []unknownFact {
+	var unk []unknownFact
+	w := func(f string, a ...any) { fmt.Fprintf(b, f, a...) }
+	var names, dispatch []string
+	for _, fi := range an.flist {
+		if fi.decl == nil || !fi.hasRecv || fi.decl.Name.Name != "Validate" || !fi.pkg.isLib {
+			continue
+		}
+		pt, ok := fi.params[0].Type().(*types.Pointer)
+		if !ok {
+			continue
+		}
+		nt, ok := pt.Elem().(*types.Named)
+		if !ok {
+			continue
+		}
+		st, ok := nt.Underlying().(*types.Struct)
+		if !ok {
+			continue
+		}
+		sig := fi.obj.Type().(*types.Signature)
+		if sig.Params().Len() != 0 {
+			continue // Validate(width, height) of ROI configs etc. are not parameter objects
+		}
+		recvName := ""
+		if len(fi.decl.Recv.List) > 0 && len(fi.decl.Recv.List[0].Names) > 0 {
+			recvName = fi.decl.Recv.List[0].Names[0].Name
+		}
+		lean := "V_" + strings.NewReplacer("/", "_", ".", "_").Replace(an.prog.rel(fi.pkg.lp.ImportPath)) + "_" + nt.Obj().Name()
+		vt := &vtrans{an: an, fi: fi, recv: recvName, st: st, used: map[string]string{}}
+		conds := vt.block(fi.decl.Body.List, "true")
+		names = append(names, lean)
+		w("/-- %s.(*%s).Validate: the fields its store conditions read -/\n", an.prog.rel(fi.pkg.lp.ImportPath), nt.Obj().Name())
+		w("structure %s where\n", lean)
+		var fs []string
+		for f := range vt.used {
+			fs = append(fs, f)
+		}
+		sort.Strings(fs)
+		for _, f := range fs {
+			w("  %s : %s\n", f, vt.used[f])
+		}
+		if len(fs) == 0 {
+			w("  unit : Unit := ()\n")
+		}
+		w("/-- (stored field, condition under which the store executes, evaluated on the object as passed in) -/\n")
+		var items []string
+		for _, c := range conds {
+			items = append(items, fmt.Sprintf("(%s, %s)", q(c.field), c.cond))
+		}
+		w("def %s.storeConds (p : %s) : List (String × Bool) := %s\n", lean, lean, leanList(items, true))
+		// construction from an association list (for the line-protocol driver)
+		var inits []string
+		for _, f := range fs {
+			if vt.used[f] == "Bool" {
+				inits = append(inits, fmt.Sprintf("%s := (a.lookup %s).getD 0 != 0", f, q(f)))
+			} else {
+				inits = append(inits, fmt.Sprintf("%s := (a.lookup %s).getD 0", f, q(f)))
+			}
+		}
+		w("def %s.ofAssoc (a : List (String × Int)) : %s := { %s }\n\n", lean, lean, strings.Join(inits, ", "))
+		dispatch = append(dispatch, fmt.Sprintf("  | %s => some ((%s.ofAssoc a).storeConds)", q(lean), lean))
+		for _, u := range vt.unk {
+			unk = append(unk, unknownFact{"Validate " + lean, fi.name, u, true})
+		}
+	}
+	w("/-- the parameter types with a Validate() method -/\n")
+	w("def validateTypes : List String := %s\n\n", qlist(names))
+	w("/-- store conditions of the named type's Validate on the object given as field/value pairs -/\n")
+	w("def validateStoreConds (ty : String) (a : List (String × Int)) : Option (List (String × Bool)) :=\n  match ty with\n%s\n  | _ => none\n\n", strings.Join(dispatch, "\n"))
+	return unk
+}
+
+type vtrans struct {
+	an   *analysis
+	fi   *funcInfo
+	recv string
+	st   *types.Struct
+	used map[string]string
+	unk  []string
+}
+
+func (v *vtrans) fieldOf(e ast.Expr) (string, types.Type, bool) {
+	se, ok := unparen(e).(*ast.SelectorExpr)
+	if !ok {
+		return "", nil, false
+	}
+	id, ok := se.X.(*ast.Ident)
+	if !ok || id.Name != v.recv {
+		return "", nil, false
+	}
+	for i := 0; i < v.st.NumFields(); i++ {
+		if v.st.Field(i).Name() == se.Sel.Name {
+			return se.Sel.Name, v.st.Field(i).Type(), true
+		}
+	}
+	return "", nil, false
+}
+
+func and(a, b string) string {
+	if a == "true" {
+		return b
+	}
+	return "(" + a + " && " + b + ")"
+}
+
+func (v *vtrans) block(list []ast.Stmt, path string) []vcond {
+	var out []vcond
+	for _, s := range list {
+		out = append(out, v.stmt(s, path)...)
+	}
+	return out
+}
+
+func (v *vtrans) stmt(s ast.Stmt, path string) []vcond {
+	switch x := s.(type) {
+	case *ast.BlockStmt:
+		return v.block(x.List, path)
+	case *ast.IfStmt:
+		if x.Init != nil {
+			v.unk = append(v.unk, "if with init statement")
+			return []vcond{{"?", "true"}}
+		}
+		c, ok := v.cond(x.Cond)
+		if !ok {
+			v.unk = append(v.unk, "condition outside the translated subset at line "+strconv.Itoa(v.an.prog.fset.Position(x.Pos()).Line))
+			c = "true"
+		}
+		out := v.block(x.Body.List, and(path, c))
+		if x.Else != nil {
+			nc := "!" + c
+			if !ok {
+				nc = "true"
+			}
+			out = append(out, v.stmt(x.Else, and(path, nc))...)
+		}
+		return out
+	case *ast.AssignStmt:
+		var out []vcond
+		for _, l := range x.Lhs {
+			if f, _, ok := v.fieldOf(l); ok {
+				out = append(out, vcond{f, path})
+			} else if _, bv, steps, ok := (&fctx{an: v.an, fi: v.fi, in: v.fi.pkg.info}).decompose(l); ok && bv != nil && bv == v.fi.params[0] {
+				out = append(out, vcond{firstField(steps), path})
+			} else if x.Tok != token.DEFINE {
+				if id, isId := l.(*ast.Ident); !isId || id.Name != "_" {
+					// store to something that is not a receiver field: local variable – irrelevant
+					if _, bv, _, ok := (&fctx{an: v.an, fi: v.fi, in: v.fi.pkg.info}).decompose(l); !ok || bv == nil || len((&fctx{an: v.an, fi: v.fi, in: v.fi.pkg.info}).varRoots(bv)) > 0 {
+						v.unk = append(v.unk, "store to non-field lvalue")
+						out = append(out, vcond{"?", path})
+					}
+				}
+			}
+		}
+		return out
+	case *ast.IncDecStmt:
+		if f, _, ok := v.fieldOf(x.X); ok {
+			return []vcond{{f, path}}
+		}
+		return nil
+	case *ast.ExprStmt:
+		if call, ok := x.X.(*ast.CallExpr); ok {
+			if id, ok := call.Fun.(*ast.Ident); ok && id.Name == "copy" && len(call.Args) == 2 {
+				if f, _, ok := v.fieldOf(call.Args[0]); ok {
+					return []vcond{{f + "[]", path}}
+				}
+			}
+			// any other call: does the callee store through the receiver?
+			c := &fctx{an: v.an, fi: v.fi, in: v.fi.pkg.info}
+			ct := c.resolve(call)
+			args := c.callArgs(call, ct)
+			for _, callee := range ct.static {
+				for pi := range callee.storesThru {
+					for ai, a := range args {
+						if paramIndexForArg(callee, ai) == pi {
+							if _, has := c.valueRoots(a)[v.fi.params[0]]; has {
+								return []vcond{{"call:" + callee.short, path}}
+							}
+						}
+					}
+				}
+			}
+			if ct.ext != nil || ct.dynamic {
+				for _, a := range args {
+					if _, has := c.valueRoots(a)[v.fi.params[0]]; has {
+						v.unk = append(v.unk, "receiver passed to "+extName(ct.ext))
+						return []vcond{{"?", path}}
+					}
+				}
+			}
+		}
+		return nil
+	case *ast.ReturnStmt:
+		return nil
+	case *ast.ForStmt, *ast.RangeStmt, *ast.SwitchStmt:
+		// loops / switches: every store inside is reported with an untranslated (true) condition
+		var out []vcond
+		ast.Inspect(s, func(n ast.Node) bool {
+			if as, ok := n.(*ast.AssignStmt); ok {
+				for _, l := range as.Lhs {
+					c := &fctx{an: v.an, fi: v.fi, in: v.fi.pkg.info}
+					if _, bv, steps, ok := c.decompose(l); ok && bv == v.fi.params[0] {
+						out = append(out, vcond{firstField(steps), path})
+					}
+				}
+			}
+			return true
+		})
+		if len(out) > 0 {
+			v.unk = append(v.unk, "store inside a loop/switch")
+		}
+		return out
+	}
+	return nil
+}
+
+func (v *vtrans) use(f string, t types.Type) (string, bool) {
+	switch u := t.Underlying().(type) {
+	case *types.Basic:
+		switch {
+		case u.Info()&types.IsInteger != 0:
+			v.used[f] = "Int"
+			return "p." + f, true
+		case u.Info()&types.IsFloat != 0:
+			v.used[f] = "Int" // floats compared with integer constants only; NaN makes every comparison false (no store)
+			return "p." + f, true
+		case u.Info()&types.IsBoolean != 0:
+			v.used[f] = "Bool"
+			return "p." + f, true
+		}
+	}
+	return "", false
+}
+
+// cond: Go boolean expression over receiver fields -> Lean Bool expression
+func (v *vtrans) cond(e ast.Expr) (string, bool) {
+	switch x := unparen(e).(type) {
+	case *ast.BinaryExpr:
+		switch x.Op {
+		case token.LAND, token.LOR:
+			a, ok1 := v.cond(x.X)
+			c, ok2 := v.cond(x.Y)
+			op := " && "
+			if x.Op == token.LOR {
+				op = " || "
+			}
+			return "(" + a + op + c + ")", ok1 && ok2
+		case token.LSS, token.LEQ, token.GTR, token.GEQ, token.EQL, token.NEQ:
+			a, ok1 := v.arith(x.X)
+			c, ok2 := v.arith(x.Y)
+			op := map[token.Token]string{token.LSS: "<", token.LEQ: "≤", token.GTR: ">", token.GEQ: "≥", token.EQL: "=", token.NEQ: "≠"}[x.Op]
+			return "decide (" + a + " " + op + " " + c + ")", ok1 && ok2
+		}
+	case *ast.UnaryExpr:
+		if x.Op == token.NOT {
+			a, ok := v.cond(x.X)
+			return "!" + a, ok
+		}
+	case *ast.SelectorExpr:
+		if f, t, ok := v.fieldOf(x); ok {
+			if s, ok := v.use(f, t); ok && v.used[f] == "Bool" {
+				return s, true
+			}
+		}
+	}
+	return "true", false
+}
+
+func (v *vtrans) arith(e ast.Expr) (string, bool) {
+	switch x := unparen(e).(type) {
+	case *ast.BasicLit:
+		switch x.Kind {
+		case token.INT:
+			return "(" + x.Value + " : Int)", true
+		case token.FLOAT:
+			if f, err := strconv.ParseFloat(x.Value, 64); err == nil && f == float64(int64(f)) {
+				return "(" + strconv.FormatInt(int64(f), 10) + " : Int)", true
+			}
+		}
+	case *ast.SelectorExpr:
+		if f, t, ok := v.fieldOf(x); ok {
+			if s, ok := v.use(f, t); ok && v.used[f] == "Int" {
+				return s, true
+			}
+		}
+	case *ast.CallExpr:
+		if id, ok := x.Fun.(*ast.Ident); ok && id.Name == "len" && len(x.Args) == 1 {
+			if f, _, ok := v.fieldOf(x.Args[0]); ok {
+				v.used["len_"+f] = "Int"
+				return "p.len_" + f, true
+			}
+		}
+	case *ast.UnaryExpr:
+		if x.Op == token.SUB {
+			a, ok := v.arith(x.X)
+			return "(-" + a + ")", ok
+		}
+	}
+	return "(0 : Int)", false
+}
+
+// ---------------------------------------------------------------- hooks
+
+func writeHooks(an *analysis, dir string) error {
+	byPkg := map[*pkgInfo][]*pkgVarInfo{}
+	for _, pv := range an.pvlist {
+		if pv.pkg.isLib && pv.v.Name() != "_" {
+			byPkg[pv.pkg] = append(byPkg[pv.pkg], pv)
+		}
+	}
+	for p, vars := range byPkg {
+		rel := an.prog.rel(p.lp.ImportPath)
+		var b strings.Builder
+		fmt.Fprintf(&b, "//go:build verif\n\n// Code generated by verif/go/cmd/gofacts -hooks; add-only verification hook, no behaviour.\n\npackage %s\n\n", p.lp.Name)
+		fmt.Fprintf(&b, "// VerifPkgVars returns pointers to every package-level variable of this package (names as in Gen/Facts.lean).\nfunc VerifPkgVars() map[string]any {\n\treturn map[string]any{\n")
+		for _, pv := range vars {
+			fmt.Fprintf(&b, "\t\t%q: &%s,\n", pv.v.Name(), pv.v.Name())
+		}
+		fmt.Fprintf(&b, "\t}\n}\n")
+		d := filepath.Join(dir, rel)
+		if err := os.MkdirAll(d, 0o755); err != nil {
+			return err
+		}
+		if err := os.WriteFile(filepath.Join(d, "verif_pkgvars.go"), []byte(b.String()), 0o644); err != nil {
+			return err
+		}
+	}
+	return nil
 }
